@@ -4,6 +4,9 @@ import Cstl.Heap.Model
 Driver for the heap area; same line protocol as harness/heap.c.
 
 ops      push <key> <id> | pop | get | size | clear | dump | fls <x>
+         bulk <n> <nprio> <seed>   (empty heap only) n pushes with LCG priorities,
+         then n pops; result `ok ck=<checksum of the pop order>` - the loop is
+         driver code composing the model's `push`/`pop`
 output   <result> | n=<size> c=<0|1> [<slot>:<id>:<key>,…]
          (breadth-first from the root; `c` = the slots are exactly 1…size;
           more than 64 nodes: `#<digest>` of the same list instead, except
@@ -34,6 +37,26 @@ def showElem : Option Elem → String
   | none => "0"
   | some e => s!"{e.id}:{e.key}"
 
+def lcg (x : Nat) : Nat := (x * 1103515245 + 12345) % 2147483648
+
+/-- `fuel` pushes of elements 10001+i with LCG priorities below `nprio` -/
+def bulkPush : Nat → Nat → Nat → Nat → Heap → Option Heap
+  | 0, _, _, _, h => some h
+  | k + 1, i, nprio, x, h =>
+    let x' := lcg x
+    match push h { key := Int.ofNat ((x' / 256) % nprio), id := 10001 + i } with
+    | none => none
+    | some h' => bulkPush k (i + 1) nprio x' h'
+
+/-- `fuel` pops; checksum of the order in which the elements come out -/
+def bulkPop : Nat → Heap → Nat → Option (Heap × Nat)
+  | 0, h, ck => some (h, ck)
+  | k + 1, h, ck =>
+    match pop h with
+    | none => none
+    | some (_, none) => none
+    | some (h', some e) => bulkPop k h' ((ck * 1000003 + (e.id - 10000) % digestP) % digestP)
+
 def hstep (h : Heap) (ws : List String) : Heap × String :=
   let bad := (h, "STOP bad-op")
   let fin (h' : Heap) (r : String) (full : Bool := false) : Heap × String :=
@@ -57,6 +80,17 @@ def hstep (h : Heap) (ws : List String) : Heap × String :=
     let (h', cbs) := clear h
     fin h' (showList (cbs.map (·.id)) ++ " p=1")
   | ["dump"] => fin h "ok" true
+  | ["bulk", n, np, sd] =>
+    match n.toNat?, np.toNat?, parseNat? sd with
+    | some n, some np, some sd =>
+      if h.size ≠ 0 || h.t ≠ Tree.nil || n > 4000000 || np = 0 || np > 1000000 then bad else
+      match bulkPush n 0 np (sd % 2147483648) h with
+      | none => (h, "STOP segv")
+      | some h1 =>
+        match bulkPop n h1 7 with
+        | none => (h, "STOP segv")
+        | some (h2, ck) => fin h2 s!"ok ck={ck}"
+    | _, _, _ => bad
   | ["fls", x] =>
     match parseNat? x with
     | some x => if x < 2 ^ 64 then fin h (toString (fls x)) else bad
